@@ -51,7 +51,7 @@ static std::map<std::string, Profile> build_profiles() {
     }
     {   // storage: submit / defer / clear / copy / destroy with events pending
         Profile p; p.name = "storage"; p.w_enqueue = 6; p.w_drain = 2; p.w_drain1 = 2; p.w_defer = 3; p.w_copy = 2; p.w_assign = 1;
-        p.w_move = 1; p.w_clearq = 1; p.w_destroy = 1; p.w_stopstart = 1; p.post_rate = 0.3; p.post_defer = true;
+        p.w_move = 1; p.w_clearq = 1; p.w_destroy = 1; p.w_stopstart = 1; p.post_rate = 0.3; p.post_defer = true; p.post_cleardef = true;
         p.min_ops = 6; p.max_ops = 20; add(p);
     }
     {   // introspection heavy
@@ -158,9 +158,11 @@ Plan generate_plan(const Desc& d, const Variant& v, const Profile& pf, uint64_t 
                 p.api = API_PROCESS;
                 if (pf.post_enqueue && a >= 6 && a < 9) p.api = API_ENQUEUE;
                 if (pf.post_defer && a >= 9) p.api = API_DEFER;
+                if (pf.post_cleardef && v.dialect == 0 && rng.chance(0.2)) p.api = API_CLEARDEF;
                 // process_event towards a machine that is not marked as processing would be dispatched
                 // re-entrantly in the middle of the enclosing machine's step (known finding KF-1)
                 bool target_busy = p.to_root ? (c.aux & 2) : (c.aux & 1);
+                if (p.api == API_CLEARDEF) { op.posts.push_back(p); continue; }
                 if (p.api == API_PROCESS && !target_busy && !pf.allow_reentrant) p.api = API_ENQUEUE;
                 if (p.api == API_ENQUEUE && !pf.post_enqueue_sub && !p.to_root && c.mach != 0) {
                     if (target_busy) p.api = API_PROCESS; else p.to_root = 1;
